@@ -23,7 +23,7 @@ Extraction "model.ml" HeapModel.step HeapModel.run HeapModel.pop_all_e HeapModel
   VssModel.vss_run
   PhsModel.rejection_sample PhsModel.rejection_sample_minmax PhsModel.direct_sample PhsModel.direct_sample_minmax
   ControlModel.pwv_run ControlModel.dcs_run ControlModel.cadjudicate
-  PathModel.interp_counts PathModel.total_states PathModel.subdivide_counts PathModel.rv_run
+  PathModel.interp_counts PathModel.total_states PathModel.subdivide_counts PathModel.rv_run PathModel.cc_run
   PisModel.qstep PisModel.qrun PisModel.drain_starts
   LedgerModel.adjudicate LedgerModel.admissible LedgerModel.report_path LedgerModel.extend
   Z.ltb Z.modulo Z.of_nat Z.to_nat Z.add Z.sub Z.mul Z.div Z.eqb Z.leb Nat.add.
